@@ -10,6 +10,15 @@ enumeration there is a family of scaffolds with huge coordinates, built from a h
 around the widths of machine integers and of the float mantissa (2**31, 2**32, 2**53, 2**63, 2**64, 10**30); the
 oracle for those is the interval form of the same scan (pure arithmetic on the row spans, no base is enumerated).
 A scaffold that cannot even be indexed is a failure: no query on it can be answered.
+
+The statement holds for EVERY lookup, not only for the first one on a freshly indexed scaffold, and whatever the
+caller has done with the results it was handed before (an OverlapResult is a working object: BuildAssembly pops rows
+off its ends, swaps rows for cut pieces and moves start / end).  So there are *sessions*: several lookups on one
+IndexedAssembly - the same interval again (same bait object, an equal one, one of another strand or with other tags),
+neighbouring intervals over the same rows, other intervals - with edits of earlier results in between.  Every lookup
+of a session is judged against the scan of the scaffold as it was indexed; a result must be a fresh object which
+shares its row list with no earlier result and not with the scaffold, editing one result must leave the others as
+they were returned, and the scaffold itself must keep its rows.
 """
 
 import itertools
@@ -100,47 +109,175 @@ def expected(is_gap, spans, a, b):
     return hit, spans[hit[0]][0], spans[hit[-1]][1]
 
 
-def check(kinds, a, b, col, inp, built=None):
+def check(kinds, a, b, col, inp, built=None, strand=1, tags=(), ctx="", bait=None):
+    """one lookup judged against the scan; returns (result or None, the bait used)"""
     if built is None:
         built, err = try_build(kinds)
         if err:
             col.fail(err, inp)
-            return
+            return None, None
     scf, is_gap, spans, asm = built
     want = expected(is_gap, spans, a, b)
+    if bait is None:
+        bait = Fragment("scf", a, b, strand, tuple(tags))
     try:
-        got = asm.find_overlaps(Fragment("scf", a, b, 1))
+        got = asm.find_overlaps(bait)
     except Exception as e:  # the property says the lookup never fails on such queries
-        col.fail(f"find_overlaps({a}-{b}) on rows {kinds} raised {type(e).__name__}: {e}", inp)
-        return
+        col.fail(f"{ctx}find_overlaps({a}-{b}) on rows {kinds} raised {type(e).__name__}: {e}", inp)
+        return None, bait
     if want is None:
         if got is not None:
             col.fail(
-                f"find_overlaps({a}-{b}) on rows {kinds}: no contig row intersects the query but got "
+                f"{ctx}find_overlaps({a}-{b}) on rows {kinds}: no contig row intersects the query but got "
                 f"{len(got.rows)} rows, start={got.start} end={got.end}",
                 inp,
             )
-        return
+        return got, bait
     if got is None:
-        col.fail(f"find_overlaps({a}-{b}) on rows {kinds} returned None, expected rows {want[0]}", inp)
-        return
+        col.fail(f"{ctx}find_overlaps({a}-{b}) on rows {kinds} returned None, expected rows {want[0]}", inp)
+        return got, bait
     idx, s, e = want
     got_rows = list(got.rows)
     same = len(got_rows) == len(idx) and all(g is scf.rows[i] for g, i in zip(got_rows, idx))
     if not same:
         pos = {id(r): i for i, r in enumerate(scf.rows) if not isinstance(r, Gap)}
         shown = [pos.get(id(r), str(r)) for r in got_rows]
-        col.fail(f"find_overlaps({a}-{b}) on rows {kinds}: rows {shown}, expected source rows {idx} (same objects, same order)", inp)
+        col.fail(f"{ctx}find_overlaps({a}-{b}) on rows {kinds}: rows {shown}, expected source rows {idx} (same objects, same order)", inp)
     if (got.start, got.end) != (s, e):
-        col.fail(f"find_overlaps({a}-{b}) on rows {kinds}: start/end {got.start}-{got.end}, expected {s}-{e}", inp)
-    if got.bait is None or (got.bait.start, got.bait.end) != (a, b):
-        col.fail(f"find_overlaps({a}-{b}) on rows {kinds}: result does not carry the bait", inp)
+        col.fail(f"{ctx}find_overlaps({a}-{b}) on rows {kinds}: start/end {got.start}-{got.end}, expected {s}-{e}", inp)
+    gb = got.bait
+    if gb is None or (gb.start, gb.end) != (a, b):
+        col.fail(f"{ctx}find_overlaps({a}-{b}) on rows {kinds}: result does not carry the bait", inp)
+    elif (gb.name, gb.strand, tuple(gb.tags)) != (bait.name, bait.strand, tuple(bait.tags)):
+        col.fail(
+            f"{ctx}find_overlaps({a}-{b}) on rows {kinds}: result carries the bait {gb} (strand {gb.strand}, tags {list(gb.tags)}), "
+            f"the query was {bait} (strand {bait.strand}, tags {list(bait.tags)})",
+            inp,
+        )
+    return got, bait
+
+
+# --------------------------------------------------------------------------------------------------
+# sessions: several lookups on one IndexedAssembly, earlier results edited in between
+# --------------------------------------------------------------------------------------------------
+
+# what a consumer does to a result it was handed (the first six as BuildAssembly / OverhangResolver do it)
+EDITS = ("discard_start", "discard_end", "trim_overhangs", "cut_first", "cut_last", "cut_keep", "pop", "clear", "reverse_rows", "move", "insert", "replace_rows", "rebait")
+
+
+def apply_edit(res, op):
+    try:
+        if op == "discard_start":
+            res.discard_start()
+        elif op == "discard_end":
+            res.discard_end()
+        elif op == "trim_overhangs":
+            res.trim_large_overhangs(0)
+        elif op == "cut_first":
+            res.trim_fragment(next(r for r in res.rows if isinstance(r, Fragment) and r is res.rows[0]))
+        elif op == "cut_last":
+            res.trim_fragment(next(r for r in res.rows if isinstance(r, Fragment) and r is res.rows[-1]))
+        elif op == "cut_keep":
+            res.trim_fragment(res.rows[0], keep_start=True, keep_end=True)
+        elif op == "pop":
+            res.rows.pop()
+        elif op == "clear":
+            res.rows.clear()
+        elif op == "reverse_rows":
+            res.rows.reverse()
+        elif op == "move":
+            res.start += 5
+            res.end -= 1
+        elif op == "insert":
+            res.rows.insert(0, Gap(9, "scaffold"))
+            res.start -= 9
+        elif op == "replace_rows":
+            res.rows = [Fragment("other", 1, 4, -1)]
+            res.start = res.end = 1
+        elif op == "rebait":
+            res.bait = Fragment("scf", res.bait.start + 1, res.bait.end + 1, res.bait.strand)
+    except Exception:  # noqa: BLE001 - an edit that does not apply to this result (no row left, ...) is the caller's affair
+        pass
+
+
+def snapshot(res):
+    return None if res is None else ([id(r) for r in res.rows], res.start, res.end)
+
+
+def run_session(kinds, steps, col, inp, built=None):
+    """
+    steps: ["q", a, b, strand, tags] - a lookup with a new bait;  ["again", k] - a lookup with the very bait object of
+    query k;  ["e", k, op] - edit the result of query k (k counts the lookups of the session from 0)
+    """
+    if built is None:
+        built, err = try_build(kinds)
+        if err:
+            col.fail(err, inp)
+            return
+    scf = built[0]
+    source = list(scf.rows)
+    results = []  # per lookup: [result, snapshot when last seen in order, bait, (a, b)]
+    for n, st in enumerate(steps):
+        ctx = f"step {n + 1} of the session {steps}: "
+        if st[0] in ("q", "again"):
+            if st[0] == "q":
+                _, a, b, strand, tags = st
+                got, bait = check(kinds, a, b, col, inp, built=built, strand=strand, tags=tags, ctx=ctx)
+            else:
+                a, b = results[st[1]][3]
+                got, bait = check(kinds, a, b, col, inp, built=built, ctx=ctx, bait=results[st[1]][2])
+            if got is not None:
+                for k, (old, *_) in enumerate(results):
+                    if old is got:
+                        col.fail(f"{ctx}find_overlaps({a}-{b}) on rows {kinds} returned the very object it returned for lookup {k} of the session", inp)
+                    elif old is not None and old.rows is got.rows:
+                        col.fail(f"{ctx}find_overlaps({a}-{b}) on rows {kinds}: the result shares its row list with the result of lookup {k}", inp)
+                if got.rows is scf.rows:
+                    col.fail(f"{ctx}find_overlaps({a}-{b}) on rows {kinds}: the result's row list is the scaffold's own row list", inp)
+            results.append([got, snapshot(got), bait, (a, b)])
+        else:
+            _, k, op = st
+            res = results[k][0]
+            if res is None:
+                continue
+            apply_edit(res, op)
+            results[k][1] = snapshot(res)
+            for j, (other, snap, *_) in enumerate(results):
+                if j != k and other is not None and other is not res and snapshot(other) != snap:
+                    col.fail(f"{ctx}editing the result of lookup {k} changed the result of lookup {j} (find_overlaps on rows {kinds})", inp)
+                    results[j][1] = snapshot(other)
+        if len(scf.rows) != len(source) or any(x is not y for x, y in zip(scf.rows, source)):
+            col.fail(f"{ctx}the rows of the indexed scaffold {kinds} changed", inp)
+            return
+
+
+def session_scripts(a, b, total, c, ops):
+    """
+    the sessions around one query (a, b) of a scaffold of length `total`; c: running number (rotates strands, tags and
+    the neighbouring query), ops: the edits to use
+    """
+    strand = (1, -1, 0)[c % 3]
+    tags = [[], ["Painted"], ["Painted", "Hap1"]][c % 3]
+    near = [(max(1, a - 1), b), (a, b + 1), (a, min(b, max(a, b - 1))), (min(a + 1, b), b)][c % 4]
+    far = [(1, total), (total + 1, total + 2), (1, 1), (total, total + 1)][(c // 4) % 4]
+    for oi, op in enumerate(ops):
+        # the same interval again after the first result was edited: an equal bait, the bait object itself, another strand / tags
+        yield [["q", a, b, strand, tags], ["e", 0, op], ["q", a, b, strand, tags], ["again", 0], ["q", a, b, -strand if strand else 1, tags[:1]]]
+        if (c + oi) % 3 == 0:
+            # two results alive at once: neighbouring interval (mostly the same rows), both edited, both asked again
+            op2 = EDITS[(c + oi + 5) % len(EDITS)]
+            yield [["q", a, b, strand, tags], ["q", *near, strand, tags], ["e", 0, op], ["q", *near, strand, tags], ["e", 1, op2], ["q", a, b, strand, tags], ["again", 1]]
+        if (c + oi) % 7 == 0:
+            yield [["q", *far, 1, []], ["q", a, b, strand, tags], ["e", 1, op], ["e", 0, op], ["q", *far, 1, []], ["again", 1], ["e", 2, op], ["q", a, b, strand, tags]]
 
 
 def replay(inp):
     col = Collector("replay")
-    kinds = [tuple(k) for k in inp["rows"]]
-    check(kinds, inp["a"], inp["b"], col, inp)
+    kinds = tuple(tuple(k) for k in inp["rows"])
+    if "session" in inp:
+        run_session(kinds, inp["session"], col, inp)
+    else:
+        check(kinds, inp["a"], inp["b"], col, inp)
     return col.failures[0]["message"] if col.failures else None
 
 
@@ -151,8 +288,14 @@ def run(tier, seed, **opts):
         f"every scaffold of 1..{max_rows} rows, each row a gap of length 1..3 or a fragment of length 1..3 (strands "
         "+,-,? by position), x every query 1 <= a <= b <= total+2; plus scaffolds of 1..6 rows with one or two rows of "
         "huge length (2**31-1 .. 10**30+1: cumulative coordinates beyond every machine-integer and float-mantissa "
-        "width) x every pair of query points at row boundaries +-1, row middles and past the end; non-trivial = "
-        "distinct (rows, a, b) where the query intersects at least one row"
+        "width) x every pair of query points at row boundaries +-1, row middles and past the end; plus sessions on one "
+        f"indexed scaffold: every scaffold of 1..{3 if tier == 'quick' else 4} rows x every query with an answer, looked up, the "
+        "result edited as a consumer does (discard_start / discard_end / trim_large_overhangs / trim_fragment / direct edits "
+        "of rows, start, end, bait), and looked up again with an equal bait, the same bait object and a bait of another "
+        "strand; with a second result of a neighbouring interval alive and edited; around lookups of other intervals; and "
+        "seeded sessions of 4-12 steps on scaffolds of 2-9 rows: every lookup judged against the scan, results must be fresh "
+        "objects sharing no row list, editing one result must not change another nor the scaffold; non-trivial = "
+        "distinct (rows, a, b) where the query intersects at least one row, or distinct session"
     )
     n_sc = 0
     for n in range(1, max_rows + 1):
@@ -191,6 +334,65 @@ def run(tier, seed, **opts):
                 inp = {"rows": [list(k) for k in kinds], "a": a, "b": b}
                 check(kinds, a, b, col, inp, built=built)
                 col.case((kinds, a, b), nontrivial=a <= total, sample=inp if (n_huge, a) == (29, 2) and b > total else None)
+    # sessions (enumerated): every scaffold of <= 3 rows (thorough: <= 4) x every query that has an answer x edits of
+    # the first result (quick: two of the edits, thorough: all for <= 3 rows and four for 4 rows, rotating)
+    n_sessions = 0
+    c = 0
+    for n in range(1, (3 if tier == "quick" else 4) + 1):
+        for kinds in itertools.product(ROW_KINDS, repeat=n):
+            built = build(kinds)
+            is_gap, spans = built[1], built[2]
+            total = spans[-1][1]
+            for a in range(1, total + 1):
+                for b in range(a, total + 2):
+                    if expected(is_gap, spans, a, b) is None:
+                        continue
+                    c += 1
+                    if tier == "quick":
+                        ops = [EDITS[(c + 6 * j) % len(EDITS)] for j in range(2)]
+                    elif n <= 3:
+                        ops = EDITS
+                    else:
+                        ops = [EDITS[(c + 3 * j) % len(EDITS)] for j in range(4)]
+                    for steps in session_scripts(a, b, total, c, ops):
+                        n_sessions += 1
+                        inp = {"rows": [list(k) for k in kinds], "session": steps}
+                        run_session(kinds, steps, col, inp, built=built)
+                        col.case((kinds, repr(steps)), sample=inp if n_sessions in (500, 5000) else None)
+            if col.full:
+                break
+    # sessions (seeded): longer scaffolds, random lookups / repeated lookups / edits
+    n_random_sessions = 60 if tier == "quick" else 4000
+    for _ in range(n_random_sessions):
+        n = rng.randint(2, 9)
+        kinds = tuple((rng.choice("GFF"), rng.choice((1, 2, 3, 7, 100, 10**6))) for _ in range(n))
+        built = build(kinds)
+        spans = built[2]
+        total = spans[-1][1]
+        pts = sorted({1, total, total + 1} | {max(1, v + d) for s, e in spans for v in (s, e) for d in (-1, 0, 1)})
+        steps = []
+        asked = []
+        for _ in range(rng.randint(4, 12)):
+            roll = rng.random()
+            if not asked or roll < 0.25:
+                a, b = sorted((rng.choice(pts), rng.choice(pts)))
+                asked.append((a, b, rng.choice((1, -1, 0)), rng.choice(([], ["Painted"]))))
+                steps.append(["q", *asked[-1]])
+            elif roll < 0.5:
+                # an interval asked before, with a new bait (now and then of another strand)
+                a, b, strand, tags = rng.choice(asked)
+                asked.append((a, b, strand if rng.random() < 0.8 else rng.choice((1, -1, 0)), tags))
+                steps.append(["q", *asked[-1]])
+            elif roll < 0.6:
+                k = rng.randrange(len(asked))
+                asked.append(asked[k])
+                steps.append(["again", k])
+            else:
+                steps.append(["e", rng.randrange(len(asked)), rng.choice(EDITS)])
+        n_sessions += 1
+        inp = {"rows": [list(k) for k in kinds], "session": steps}
+        run_session(kinds, steps, col, inp, built=built)
+        col.case((kinds, repr(steps)))
     exhaustive = True
     if tier != "quick":
         # random larger scaffolds: long rows, many rows, queries sampled at row boundaries +-1
@@ -227,6 +429,8 @@ def run(tier, seed, **opts):
         bounds=f"scaffolds of <= {max_rows} rows over {len(ROW_KINDS)} row kinds ({n_sc} scaffolds), all queries up to total+2"
         f"; plus {n_huge} scaffolds of 1..6 rows around {len(HUGE)} huge row lengths (2**31-1 .. 10**30+1), all pairs of "
         "boundary/middle query points"
+        f"; plus {n_sessions} sessions of 5-8 steps (lookups and edits of earlier results) on the scaffolds of <= {3 if tier == 'quick' else 4} rows "
+        f"and {n_random_sessions} seeded sessions on scaffolds of 2-9 rows"
         + (
             ""
             if tier == "quick"
